@@ -340,6 +340,80 @@ theorem search_after_crash (maxSize maxFiles nowMs : Nat) (pre : List (Nat × Li
   refine ⟨extra, he, ?_⟩
   rw [hs, hheld, drop_min (runWrites w0 (({} : FS).applyAll acts) pre).2.2 k0, drop_append_drop _ _ _ _ (Nat.min_le_right _ _)]
 
+/-! ### a long-lived searcher (cached position) -/
+
+/-- what a program does with one writer and one long-lived searcher -/
+inductive Step
+  | write (ts : Nat) (items : List MItem)
+  | range (b e : Nat) (res : List Char)
+  | lines (b n : Nat)
+
+/-- every search of the session, answered through the searcher's cached position, gives the answer a fresh searcher would give -/
+def sessionOk (w : Writer) (fs : FS) (c : Cache) : List Step → Prop
+  | [] => True
+  | .write ts items :: rest => sessionOk (w.write fs ts items).1 (fs.applyAll (w.write fs ts items).2.1) c rest
+  | .range b e res :: rest =>
+    (searchRange fs c b e res).2 = (searchRange fs {} b e res).2 ∧ sessionOk w fs (searchRange fs c b e res).1 rest
+  | .lines b n :: rest =>
+    (searchLines fs c b n).2 = (searchLines fs {} b n).2 ∧ sessionOk w fs (searchLines fs c b n).1 rest
+
+def stepsBytes : List Step → Nat
+  | [] => 0
+  | .write ts items :: rest => ((stamp ts items).flatMap lineBytes).length + stepsBytes rest
+  | _ :: rest => stepsBytes rest
+
+def stepsItems : List Step → Nat
+  | [] => 0
+  | .write _ items :: rest => items.length + stepsItems rest
+  | _ :: rest => stepsItems rest
+
+def stepsGood (M : Nat) : List Step → Prop
+  | [] => True
+  | .write ts items :: rest => (∀ it ∈ items, GoodItem { it with ts := ts }) ∧ ts / 1000 ≤ M ∧ stepsGood M rest
+  | _ :: rest => stepsGood M rest
+
+theorem session_inv (steps : List Step) (w : Writer) (fs : FS) (al : List AFile) (B N M : Nat) (c : Cache)
+    (h : WInv w fs al B N) (hc : CacheInv al c) (hgood : stepsGood M steps) (hM : w.latest ≤ M ∧ M < 18446744073709551616)
+    (hB : B + stepsBytes steps < 18446744073709551616) (hN : N + stepsItems steps < MAX_ITEM_AMOUNT) :
+    sessionOk w fs c steps := by
+  induction steps generalizing w fs al B N c with
+  | nil => trivial
+  | cons st rest ih =>
+    cases st with
+    | write ts items =>
+      simp only [sessionOk, stepsGood, stepsBytes, stepsItems] at hgood hB hN ⊢
+      obtain ⟨al', hinv', _, hcache⟩ := write_inv w fs al B N ts items h hgood.1
+      refine ih _ _ al' _ _ c hinv' (hcache c hc) hgood.2.2 ⟨write_latest_le w fs ts items M hM.1 hgood.2.1, hM.2⟩ ?_ ?_
+      · simp only [stamp] at hB; omega
+      · omega
+    | range b e res =>
+      simp only [sessionOk, stepsGood, stepsBytes, stepsItems] at hgood hB hN ⊢
+      obtain ⟨hrep, hwf, hlive⟩ := winv_rep_wf w fs al B N h (by omega) (by omega) (by omega)
+      obtain ⟨h1, h2, _, _⟩ := cached_search_eq_fresh fs al hrep hwf hlive h.ids c hc b e res 0
+      exact ⟨h1, ih w fs al B N _ h h2 hgood hM hB hN⟩
+    | lines b n =>
+      simp only [sessionOk, stepsGood, stepsBytes, stepsItems] at hgood hB hN ⊢
+      obtain ⟨hrep, hwf, hlive⟩ := winv_rep_wf w fs al B N h (by omega) (by omega) (by omega)
+      obtain ⟨_, _, h3, h4⟩ := cached_search_eq_fresh fs al hrep hwf hlive h.ids c hc b 0 [] n
+      exact ⟨h3, ih w fs al B N _ h h4 hgood hM hB hN⟩
+
+/-- **A long-lived searcher answers like a fresh one.** Create a writer and a searcher; interleave any writes with any searches
+of both kinds through that one searcher (whose cached position is updated by every search): each search returns exactly what a
+fresh searcher returns on the directory of that moment - which, by `written_items_are_found` / `..._by_lines`, is the Spec. -/
+theorem long_lived_searcher (maxSize maxFiles nowMs M : Nat) (steps : List Step) (w0 : Writer) (acts : List Act)
+    (hnew : Writer.new {} maxSize maxFiles nowMs = some (w0, acts))
+    (hgood : stepsGood M steps) (hM : nowMs / 1000 ≤ M ∧ M < 18446744073709551616)
+    (hB : stepsBytes steps < 18446744073709551616) (hN : stepsItems steps < MAX_ITEM_AMOUNT) :
+    sessionOk w0 (({} : FS).applyAll acts) {} steps := by
+  obtain ⟨al0, hinv0, _⟩ := new_inv maxSize maxFiles nowMs w0 acts hnew
+  have hl0 : w0.latest = nowMs / 1000 := by
+    unfold Writer.new at hnew
+    split at hnew
+    · simp at hnew
+    · simp only [Option.some.injEq, Prod.mk.injEq] at hnew
+      rw [← hnew.1]
+  exact session_inv steps w0 _ al0 0 0 M {} hinv0 (cacheInv_empty al0) hgood ⟨by rw [hl0]; exact hM.1, hM.2⟩ (by omega) (by omega)
+
 /-- retention: a roll-over keeps the newest `maxFiles - 1` files (all of them while there are fewer) -/
 theorem retention_keeps_newest (n maxFiles : Nat) (h : 0 < maxFiles) : n - dropCount n maxFiles = min n (maxFiles - 1) := by
   unfold dropCount; split <;> omega
@@ -401,7 +475,8 @@ theorem write_keeps_well_formed (w : Writer) (fs : FS) (al : List AFile) (B N ts
     (hgood : ∀ it ∈ items, GoodItem { it with ts := ts }) :
     ∃ al', WInv (w.write fs ts items).1 (fs.applyAll (w.write fs ts items).2.1) al'
       (B + ((items.map (fun it => { it with ts := ts })).flatMap lineBytes).length) (N + items.length) ∧
-      ∃ k, al'.flatMap AFile.items = (al.flatMap AFile.items ++ accepted w ts items).drop k := write_inv w fs al B N ts items h hgood
+      (∃ k, al'.flatMap AFile.items = (al.flatMap AFile.items ++ accepted w ts items).drop k) ∧
+      ∀ c, CacheInv al c → CacheInv al' c := write_inv w fs al B N ts items h hgood
 
 /-- a roll-over removes the oldest files beyond the limit, adds a new empty file whose name sorts after all others -/
 theorem rollover_spec (fs : FS) (al : List AFile) (h : RepL fs al) (hs : IdsSorted (al.map (·.id))) (maxFiles tsMs : Nat)
